@@ -8,7 +8,7 @@ from vf.harness import Check
 from vf.gen.util import weighted
 from vf.gen import lens as GL
 from vf.gen.build import build
-from vf.gen.edit import edit_strategy, apply_edit, ALL_KINDS
+from vf.gen.edit import edit_strategy, apply_edit, maybe_reload, ALL_KINDS
 from vf.gen import samples as GS
 from vf.ref import trace as RT
 
@@ -88,9 +88,10 @@ class C02(Check):
         if ed:
             # history on one Optic: trace, edit through the public setters, trace again; the second trace must obey the
             # laws on the *edited* prescription
+            o = maybe_reload(o, ed)
             spec2 = apply_edit(o, spec, ed)
             if spec2 is not None:
-                out.cls('retraced_after_' + ed['kind'] + '_edit')
+                out.cls('retraced_after_' + ed['kind'] + '_edit' + ('_of_reloaded_lens' if ed.get('reload') else ''))
                 self.trace_and_judge(case, out, o, spec2)
 
     def trace_and_judge(self, case, out, o, spec):
